@@ -19,9 +19,9 @@
                 no oracle involved
      "spec"   : like "mono" but on the specification's own scores (design check for C14)
    In every mode the sample strings are re-parsed and must denote the decoded assignment.    *)
-EXTENDS Vector, Score3Fast, Json, IOUtils, FiniteSets
+EXTENDS Vector, Score3Fast, Json, IOUtils, FiniteSets, TraceData
 CONSTANTS Mode
-Data == JsonDeserialize(IOEnv.TRACE_FILE)
+Data == TraceData
 Tables == Data.tables
 Rows == Data.rows
 \* one cheap state <<i, 0>> per row (all of them initial, so the queue holds every row and the
@@ -161,9 +161,17 @@ MonoRow(row, h) ==
        J(pr, hi, lo) == hi * rad[pr[1]] * str[pr[1]] + (pr[2]-1) * str[pr[1]] + lo
        Lowers(pr, j) == LET j2 == j + (pr[3] - pr[2]) * str[pr[1]] IN
                         \E k \in pr[4] : k <= h.slots /\ V(j,k) >= 0 /\ V(j2,k) >= 0 /\ V(j,k) > V(j2,k)
-       His(pr) == 0..((n \div (rad[pr[1]] * str[pr[1]])) - 1)
-       Los(pr) == 0..(str[pr[1]] - 1)
-       anyBad == \E pr \in pairs : \E hi \in His(pr) : \E lo \in Los(pr) : Lowers(pr, J(pr, hi, lo))
+       \* the same test with everything loop-invariant hoisted (this is the hot loop of the check)
+       slots == h.slots
+       obs == row.obs
+       spec == SpecMode
+       PairBad(pr) == LET s == str[pr[1]]  span == rad[pr[1]] * s  off == (pr[2]-1) * s  delta == (pr[3] - pr[2]) * s
+                          ks == {k \in pr[4] : k <= slots}  nhi == (n \div span) - 1  nlo == s - 1 IN
+                      IF spec THEN \E hi \in 0..nhi : \E lo \in 0..nlo : \E k \in ks :
+                                      LET x == vals[hi*span + off + lo][k]  y == vals[hi*span + off + lo + delta][k] IN x >= 0 /\ y >= 0 /\ x > y
+                      ELSE \E hi \in 0..nhi : \E lo \in 0..nlo : \E k \in ks :
+                              LET x == obs[(hi*span + off + lo)*slots + k]  y == obs[(hi*span + off + lo + delta)*slots + k] IN x > y /\ y >= 0
+       anyBad == \E pr \in pairs : PairBad(pr)
    IN IF ~Disjoint(h, og) THEN "shape-disjoint" ELSE IF ~anyBad THEN "ok"
       ELSE LET bad == {<<j, pr>> \in (0..(n-1)) \X pairs :
                          ((j \div str[pr[1]]) % rad[pr[1]]) + 1 = pr[2] /\ Lowers(pr, j)}
